@@ -671,6 +671,12 @@ def repeated_well_cases(seed):
                 p = t
         op = {'op': 'transfer', 'src': {'p': p, 'r': {'list': src_l}}, 'dst': {'c': d}, 'q': {'v': '4', 'p': 'u', 'b': 'L'}, 'osrc': g.fresh(), 'odst': g.fresh()}
         g.emit(op, 'repeat:list->c')
+        # requests that only the repetition makes infeasible: a well drawn from twice for more than it holds in all, a well that
+        # receives twice more than it has room for (each single share would fit)
+        op = {'op': 'transfer', 'src': {'p': p, 'r': {'list': [[0, 1], [0, 2], [0, 1]]}}, 'dst': {'c': d}, 'q': {'v': '48', 'p': 'u', 'b': 'L'}, 'osrc': g.fresh(), 'odst': g.fresh()}
+        g.emit(op, 'repeat:overdraw')
+        op = {'op': 'transfer', 'src': {'c': a}, 'dst': {'p': t, 'r': {'list': [[1, 2], [1, 2]]}}, 'q': {'v': '510', 'p': 'u', 'b': 'L'}, 'osrc': g.fresh(), 'odst': g.fresh()}
+        g.emit(op, 'repeat:overfill')
         out.append(g)
     return out
 
